@@ -608,10 +608,16 @@ def make_module_class():
         slow_cleanup = False
 
         def on_stop(self, sm):
+            self.log_.append(('H', 'on_stop'))
             return self.state_cleanup if self.slow_cleanup else None
 
         def on_restart(self, sm):
+            self.log_.append(('H', 'on_restart'))
             return self.state_cleanup if self.slow_cleanup else None
+
+        def on_error(self, sm):
+            self.log_.append(('H', 'on_error'))
+            return super().on_error(sm)
 
         @status_code(BUSY, 'cleaning up')
         def state_cleanup(self, sm):
@@ -629,6 +635,11 @@ def make_module_class():
         def go(self):
             """start the machine from a command (no access lock held, unlike write_target)"""
             self.start_machine(self.state_a)
+
+        @Command
+        def goplain(self):
+            """a run explicitly started without any cleanup"""
+            self.start_machine(self.state_a, cleanup=None)
     return Mod, IDLE, BUSY, ERROR
 
 
@@ -724,7 +735,7 @@ def _run_module(r, rng, n, inj, Mod, IDLE, BUSY, ERROR):
         m.log_ = log = []
         m.slow_cleanup = rng.random() < 0.4
         m.script = [rng.choice(['retry', 'retry', 'next', 'finish', 'raise', 'final']) for _ in range(rng.randint(0, 8))]
-        ops = [rng.choice(['poll', 'poll', 'poll', 'start', 'stop', 'go']) for _ in range(rng.randint(3, 12))]
+        ops = [rng.choice(['poll', 'poll', 'poll', 'start', 'stop', 'go', 'goplain']) for _ in range(rng.randint(3, 12))]
         if rng.random() < 0.15:
             # directed: a request revoked again inside one cleanup window (stop, restart, stop while the cleanup of the first
             # stop is still in progress) - the most recent request wins
@@ -740,6 +751,7 @@ def _run_module(r, rng, n, inj, Mod, IDLE, BUSY, ERROR):
         ok = True
         inject = rng.random() < 0.6
         stop_mark = None      # length of the step log when the last stop request returned (None: a start came later)
+        plain_mark = None
         for oi, op in enumerate(ops + ['poll'] * SETTLE):
             try:
                 if op == 'poll':
@@ -757,6 +769,8 @@ def _run_module(r, rng, n, inj, Mod, IDLE, BUSY, ERROR):
                             m.write_target(rng.choice([1.0, -1.0]))
                         elif op == 'go':
                             m.go()
+                        elif op == 'goplain':
+                            m.goplain()
                         else:
                             m.stop()
                     finally:
@@ -766,11 +780,24 @@ def _run_module(r, rng, n, inj, Mod, IDLE, BUSY, ERROR):
                     # (only the cleanup of the interrupted run), until something is started again
                     stop_mark = len(log) if op == 'stop' else None
                     stop_state = before_stop
+                    # a run started without cleanup on an idle machine: whatever ends it, no cleanup hook is executed
+                    if op == 'goplain' and before_stop == 'idle-with-pending-nothing':
+                        plain_mark = len(log)
+                    elif op != 'stop':
+                        plain_mark = None
             except Exception as e:
                 r.violation('C14/module/raises', f'{op} raised {type(e).__name__}: {e}'[:200],
                             {'kind': 'module', 'script': script0, 'ops': ops})
                 ok = False
                 break
+            if plain_mark is not None:
+                r.count('inv_module_no_cleanup_hook_in_a_run_without_cleanup')
+                hooks = [e for e in log[plain_mark:] if e[0] == 'H']
+                if hooks:
+                    r.violation('C14/module/cleanup-hook-runs-although-none-was-requested', f'start_machine(..., cleanup=None) on an idle machine, then {op}: the hook {hooks[0][1]} '
+                                f'was executed: {log[plain_mark:][:5]}', {'kind': 'module', 'script': script0, 'ops': ops, 'slow_cleanup': m.slow_cleanup})
+                    ok = False
+                    break
             if stop_mark is not None:
                 r.count('inv_module_nothing_runs_after_stop')
                 late = [e for e in log[stop_mark:] if e[0] == 'S' and e[1] in ('a', 'b')]
